@@ -78,6 +78,16 @@ cmd('Move', 'Move', 'move', lits=['moveid'], private=True,
 cmd('StickerFind', 'StickerFind', 'sticker', ok=[okstr('self.uri@'), okstr('self.name@'), '(self.filter matches Some(f) ==> %s)' % okstr('f.1@')], unit=False, private=True,
     spec='(match self.filter { None => %s, Some((o, v)) => %s })' % (W('sticker', kw('find'), kw('song'), strarg('self.uri@'), strarg('self.name@')),
          W('sticker', kw('find'), kw('song'), strarg('self.uri@'), strarg('self.name@'), '(match o { StickerFindOperator::Equals => %s, StickerFindOperator::GreaterThan => %s, StickerFindOperator::LessThan => %s })' % (kw('='), kw('>'), kw('<')), strarg('v@'))))
+DUR = lambda e: 'vx_spec::tok::sbytes(dur_arg_text(%s))' % e
+TAGB = lambda e: 'vstd::utf8::encode_utf8(%s.name())' % e
+cmd('SeekTo', 'SeekTo', 'seek', lits=['seekid'], spec='(match self.0 { Song::Position(p) => %s, Song::Id(i) => %s })' % (W('seek', num('p.0'), DUR('self.1')), W('seekid', num('i.0'), DUR('self.1'))))
+cmd('CountGrouped', 'CountGrouped', 'count', unit=False, private=True,
+    ok=['(self.filter matches Some(f) ==> mpd_protocol::command::arg_ok(f.arg_bytes()))', 'mpd_protocol::command::arg_ok(%s)' % TAGB('self.group_by')],
+    spec='(match self.filter { None => %s, Some(f) => %s })' % (W('count', kw('group'), TAGB('self.group_by')), W('count', 'f.arg_bytes()', kw('group'), TAGB('self.group_by'))))
+cmd('Find', 'Find', 'find', unit=False, private=True,
+    ok=['mpd_protocol::command::arg_ok(self.filter.arg_bytes())', '(self.sort matches Some(t) ==> %s)' % okstr('t.name()')],
+    spec='({ let b0 = %s; let b1 = (match self.sort { None => b0, Some(t) => b0.push(0x20u8) + %s.push(0x20u8) + %s }); match self.window { None => b1, Some(w) => b1.push(0x20u8) + %s.push(0x20u8) + %s } })' % (W('find', 'self.filter.arg_bytes()'), kw('sort'), strarg('t.name()'), kw('window'), rng('w')),
+    extra='  prologue <<<\n        broadcast use cow_ref_str;\n  >>>')
 cmd('AlbumArt', 'AlbumArt', 'albumart', [strarg('self.uri@'), num('self.offset')], [okstr('self.uri@')], unit=False, private=True)
 cmd('AlbumArtEmbedded', 'AlbumArtEmbedded', 'readpicture', [strarg('self.uri@'), num('self.offset')], [okstr('self.uri@')], unit=False, private=True)
 
@@ -136,12 +146,22 @@ def main():
         out.append('lift fn "<%s as Command>::command"' % k)
         out.append('  props C15\n  implicit C12 C15')
         if c['extra']: out.append(c['extra'].rstrip('\n'))
-        out.append('  prologue <<<\n        proof { lemma_command_words(); lemma_keywords(); }\n        broadcast use dec_text_digits, lemma_num_arg_ok, lemma_range_arg_ok, lemma_por_arg_ok;\n  >>>')
+        out.append('  prologue <<<\n        proof { lemma_command_words(); lemma_keywords(); }\n        broadcast use dec_text_digits, lemma_num_arg_ok, lemma_range_arg_ok, lemma_por_arg_ok, lemma_dur_arg_ok;\n  >>>')
         if not c['unit']:
             out.append('lift fn "<%s as Command>::response"' % k)
             out.append('  props\n  implicit\n  attr <<<\n    #[verifier::external_body]\n  >>>')
         out.append('')
-    out.append('append <<<\n' + name_lemma(words) + kw_lemma(KW) + '''/// a number written as decimal digits can always be written as an argument (no LF / NUL)
+    out.append('append <<<\n' + name_lemma(words) + kw_lemma(KW) + '''/// a duration text can always be written as an argument (digits and a dot)
+pub broadcast proof fn lemma_dur_arg_ok(x: std::time::Duration)
+    ensures #[trigger] mpd_protocol::command::arg_ok(vx_spec::tok::sbytes(dur_arg_text(x)))
+{
+    broadcast use dur_arg_text_chars;
+    let d = dur_arg_text(x);
+    assert(vstd::utf8::is_ascii_chars(d)) by { assert forall|i: int| 0 <= i < d.len() implies (d[i] as u32) < 128 by { assert(('0' <= d[i] && d[i] <= '9') || d[i] == '.'); } }
+    vstd::utf8::is_ascii_chars_encode_utf8(d);
+    assert forall|i: int| 0 <= i < vx_spec::tok::sbytes(d).len() implies #[trigger] vx_spec::tok::sbytes(d)[i] != 0x0Au8 && vx_spec::tok::sbytes(d)[i] != 0u8 by { assert(('0' <= d[i] && d[i] <= '9') || d[i] == '.'); }
+}
+/// a number written as decimal digits can always be written as an argument (no LF / NUL)
 pub broadcast proof fn lemma_num_arg_ok(n: nat)
     ensures #[trigger] mpd_protocol::command::arg_ok(vx_spec::tok::sbytes(dec_text(n)))
 {
